@@ -10,6 +10,7 @@ def emit(w, src, must):
     emit_codes(w, src, must)
     emit_timers(w, src, must)
     emit_guards(w, src, must)
+    emit_stun(w, src, must)
 
 
 def emit_timers(w, src, must):
@@ -54,4 +55,37 @@ def emit_guards(w, src, must):
     req = bool(re.search(r"if via\.is_empty\(\)\s*\{\s*return Err", ext))
     w("(* BaseHeaders::extract_from rejects a message without a usable Via before do_receive indexes via[0] (sip-core/src/lib.rs) *)")
     w("Definition base_requires_via : bool := %s." % ("true" if req else "false"))
+    w("")
+
+
+def emit_stun(w, src, must):
+    """constants and forms of the STUN codec the model of C20 depends on"""
+    lib = src("crates/stun-types/src/lib.rs")
+    m = must(re.search(r"const COOKIE: u32 = 0x([0-9A-Fa-f]+);", lib), "STUN magic cookie")
+    w("(* crates/stun-types: magic cookie, address attribute lengths, CRC polynomial, fingerprint xor; crates/stun: retry loop *)")
+    w("Definition stun_cookie : N := %d." % int(m.group(1), 16))
+    addr = src("crates/stun-types/src/attributes/addr.rs")
+    v4 = set(re.findall(r"SocketAddr::V4\(_\) => Ok\((\d+)\)", addr))
+    v6 = set(re.findall(r"SocketAddr::V6\(_\) => Ok\((\d+)\)", addr))
+    must(len(v4) == 1 and len(v6) == 1, "address attribute encode_len (one value per family)")
+    w("Definition stun_addr4_len : N := %s." % v4.pop())
+    w("Definition stun_addr6_len : N := %s." % v6.pop())
+    be = len(re.findall(r"from_be_bytes\(addr\.ip\(\)\.octets\(\)\)", addr)) == 2 and "from_ne_bytes" not in addr
+    w("Definition stun_addr_network_order : bool := %s." % ("true" if be else "false"))
+    fp = src("crates/stun-types/src/attributes/fingerprint.rs")
+    poly = must(re.search(r"c = 0x([0-9a-f]+) \^ \(c >> 1\)", fp), "CRC polynomial")
+    xors = set(re.findall(r"crc32\(data\) \^ 0x([0-9a-f]{8});", fp))
+    must(len(xors) == 1, "fingerprint xor constant (same in encode and decode)")
+    w("Definition stun_crc_poly : N := %d." % int(poly.group(1), 16))
+    w("Definition stun_fp_xor : N := %d." % int(xors.pop(), 16))
+    dec = fp[fp.index("fn decode"):fp.index("fn encode")]
+    w("Definition stun_fp_excludes_own_header : bool := %s." % ("true" if re.search(r"buffer\(\)\[\.\.attr\.begin - 4\]", dec) else "false"))
+    cl = src("crates/stun/src/lib.rs")
+    r = must(re.search(r"for _ in 0\.\.(\d+) \{", cl), "STUN retry count")
+    d = must(re.search(r"let mut delta = Duration::from_millis\((\d+)\);", cl), "STUN initial timeout")
+    must("delta *= 2;" in cl, "STUN timeout doubling")
+    w("Definition stun_attempts : N := %s." % r.group(1))
+    w("Definition stun_initial_ms : N := %s." % d.group(1))
+    pr = src("crates/stun-types/src/parse.rs")
+    w("Definition stun_trim_only_variable : bool := %s." % ("true" if "trimmed_end" in pr and re.search(r"end: value_end,", pr) else "false"))
     w("")
